@@ -227,7 +227,7 @@ def run_stream(ctx, n):
                 ok = False
             else:
                 both_nan = np.isnan(got) & np.isnan(exp)
-                tol = 1e-7 if m["kind"] in ("triangle", "tetra") else 1e-12 if m["kind"] in ("cel0", "celiter") else 1e-10  # triangle sheets: cancellation near edge extensions amplifies the different operation order
+                tol = 1e-6 if m["kind"] in ("triangle", "tetra") else 1e-12 if m["kind"] in ("cel0", "celiter") else 1e-10  # triangle sheets: cancellation near edge extensions amplifies the different operation order
                 ok = bool(np.all(both_nan | (np.abs(got - exp) <= tol * np.maximum(np.maximum(np.abs(got), np.abs(exp)), scale))))
                 if np.any(exp != 0):
                     stats["nonzero_rows"] += 1
